@@ -103,6 +103,14 @@ def build_items(case):
             else:
                 prog = biased_program(rng)
             items.append({"kind": "convert", "text": render(prog), "opts": OPTS[i % len(OPTS)]})
+    elif case["kind"] == "sharedcfg":
+        names = ["N$", "L$()", "T$", "M$", "Q$()"]
+        for i in range(case["n"]):
+            dims = rng.sample(names, rng.randint(1, 4))
+            ents = ",".join(nm.replace("()", "(%d)" % rng.randint(1, 5)) for nm in dims)
+            text = "10 DIM %s\n20 %s=\"X\"\n" % (ents, dims[0].replace("()", "(1)"))
+            items.append({"kind": "convert", "text": text, "shared_cfg": True,
+                          "opts": {"default_str_storage": rng.choice([32, 64, 80, 200]), "initialize_vars": i % 2 == 0}})
     elif case["kind"] == "cli":
         # command-line runs with per-name size maps: the same config path with different contents from item to item
         names = ["A$", "B$", "S$()", "N$", "T$()"]
@@ -207,6 +215,8 @@ def cases(tier, seed):
     hseeds = [0, 1, 2, 3, 5, 7, 11, 13] if tier == "quick" else list(range(32))
     for b in range(nb):
         yield {"kind": "convert", "seed": seed * 100003 + b, "n": 40, "hashseeds": hseeds, "sample": b == 0}
+    for b in range(1 if tier == "quick" else 8):
+        yield {"kind": "sharedcfg", "seed": seed * 100069 + b, "n": 24, "hashseeds": hseeds[:3], "sample": False}
     for b in range(1 if tier == "quick" else 8):
         yield {"kind": "cli", "seed": seed * 100057 + b, "n": 24, "hashseeds": hseeds[:3], "sample": False}
     for b in range(2 if tier == "quick" else 8):
